@@ -387,10 +387,11 @@ func init() {
 	bfs.Register("c16-2", func() bfs.Scenario { return build(2) })
 	bfs.Register("c16-3", func() bfs.Scenario { return build(3) })
 	bfs.Register("c16-4", func() bfs.Scenario { return build(4) })
+	bfs.Register("c16-5", func() bfs.Scenario { return build(5) })
 	reg.Register(reg.Check{Property: "C16", Level: "model_checking", Run: func(run *ev.Run) {
 		n, deadline := 3, 4*time.Minute
 		if ev.Tier() == "thorough" {
-			n, deadline = 4, 25*time.Minute
+			n, deadline = 5, 25*time.Minute
 		}
 		cfg := bfs.Config{Scenario: fmt.Sprintf("c16-%d", n), MaxDepth: n + 1, Deadline: deadline}
 		st := bfs.Explore(cfg, run)
